@@ -1,5 +1,6 @@
 import LassoProofs.Lemmas.SerdeT
 import LassoProofs.C06
+import LassoModel.Extracted
 /-
   C15 — deserialising arbitrary documents is safe: a consistent object or an error.
 
@@ -105,5 +106,28 @@ example : (match deRodeo cEnv 2 [[1], [2], [3]] with | .err .serde => true | _ =
 example : (match deResolver 2 [[1], [2], [3]] with | .err .serde => true | _ => false) = true := by decide
 /-- A well-formed document is accepted. -/
 example : (match deThreaded 255 [([98], 2), ([97], 1)] with | .ok t => t.ctr == 2 | _ => false) = true := by decide
+
+/-! ### Tie to the source: the deserialisers as effect sequences
+
+`LassoModel/Serde.lean` mirrors the four `Deserialize` impls statement by statement.  The extractor
+regenerates, in evaluation order, what each of them reads, how it pre-sizes its containers (exactly the number
+of entries: the tables never grow while a document is read), that the arena is unlimited, and inside the
+loop: store (`expect`), hash, probe, the rejection of a repeated string, the key check *applied to the position
+of the entry* and its rejection, the push and the table insert; for the resolver the check of the last
+position up front; for the concurrent interner the running maximum of the keys, the two map inserts and the
+final validation (unique strings, dense keys) with its rejection.  These are the sequences the model's
+`deListLoop`, `deResolver` and `deThreadedLoop`/`deThreaded` follow. -/
+theorem deserialisers_follow_model :
+    Extracted.deRodeoEffects =
+      [.readList, .presizeExact, .presizeExact, .arenaUnlimited, .loopBegin, .store, .expectStored, .hashOne, .probe,
+       .reject, .keyCheck .loopIndex, .reject, .stringsPush, .tableInsert, .loopEnd] ∧
+    Extracted.deReaderEffects = Extracted.deRodeoEffects ∧
+    Extracted.deResolverEffects =
+      [.readList, .keyCheck .lenMinusOne, .reject, .presizeExact, .arenaUnlimited, .loopBegin, .store, .expectStored,
+       .stringsPush, .loopEnd] ∧
+    Extracted.deThreadedEffects =
+      [.readMap, .presizeExact, .presizeExact, .arenaUnlimited, .loopBegin, .counterMax, .store, .expectStored,
+       .mapInsert, .stringsInsert, .loopEnd, .finalCheck, .reject] := by
+  decide
 
 end Lasso.C15
